@@ -570,3 +570,49 @@ def w13(facts, tier):
         else:
             yield ob(["C01", "C02"], "W13", key, "violation" if bad else "pass", where(wf),
                      f"{ty}: " + ("; ".join(sorted(set(bad))[:3]) if bad else f"components flow back into their places on {matched} path(s)"))
+
+
+# ---------------------------------------------------------------------------------------------
+# K3 (C14): both ends of the encrypted container derive the key the same way
+
+def key_derivation_shape(f):
+    """calls (callee + literal/const arguments) up to the creation of the crypto stream"""
+    out = []
+    for x in walk(f["body"]):
+        if x.get("k") != "Call":
+            continue
+        c = callee(x) or ""
+        if c.endswith(("CryptoWriter::new", "CryptoReader::new")):
+            break
+        if c.startswith(("ring::", "core::slice", "[T]::", "str::", "core::panicking")) or "digest" in c:
+            lits = []
+            for a in x.get("args", []):
+                for y in walk(a):
+                    if y.get("k") == "Lit" and "int" in y:
+                        lits.append(y["int"])
+                    if y.get("k") in ("Static", "Const"):
+                        lits.append(y.get("id"))
+            if not c.startswith("core::panicking"):
+                out.append((c, tuple(lits)))
+    return out
+
+
+def key_len(f):
+    for x in walk(f["body"]):
+        if x.get("k") == "Repeat" and x.get("ty", "").startswith("[u8;"):
+            return x.get("n")
+    return None
+
+
+@rule("K3", ["C14"], floor=1, doc="save_encrypted_file and load_encrypted_file derive the key from the password by the same digest and length")
+def k3(facts, tier):
+    a = facts.fns.get("savefile::crypto::save_encrypted_file")
+    b = facts.fns.get("savefile::crypto::load_encrypted_file")
+    if a is None or b is None:
+        return
+    sa, sb = key_derivation_shape(a), key_derivation_shape(b)
+    ok = sa == sb and bool(sa) and key_len(a) == key_len(b)
+    yield ob(["C14"], "K3", "key-derivation", "pass" if ok else "violation", where(b),
+             f"both ends derive a {key_len(a)}-byte key by {[c for c, _ in sa][:2]}" if ok else
+             f"key derivation differs between save ({sa}, key {key_len(a)} bytes) and load ({sb}, key {key_len(b)} bytes): "
+             f"a file cannot be read back with the password it was written with")
